@@ -1,5 +1,7 @@
 """Per-property check specifications: which contracts (by tag), which bounded stand-ins, claimed level."""
 
+from bounded import props as B
+
 PROPS = {}
 
 
@@ -9,7 +11,18 @@ def prop(pid, level, explanation, bounded=(), assumptions=()):
 
 prop("C08", "other",
      "Pass F frame obligations + functional contracts of the validation call graph (deductive, unbounded) "
-     "plus bounded call histories with observable snapshots (stand-in for the functions not yet under contract).")
+     "plus bounded call histories with observable snapshots (stand-in for the functions not yet under contract).",
+     bounded=[B.c08_histories])
+
+prop("C01", "other",
+     "Per-keyword validator contracts (raise iff the Draft-6 clause fails, type guard, no other exception) discharged for all inputs; "
+     "the composition parse_element -> Element.__call__ is covered by the bounded pipeline comparison against an independent Draft-6 oracle.",
+     bounded=[B.c01_pipeline])
+
+prop("C10", "other",
+     "safe@op obligations (no exception other than those the contract allows) of every function under contract, discharged for all inputs; "
+     "bounded: extreme-value pool through the whole pipeline.",
+     bounded=[B.c10_pipeline])
 
 NOT_YET = {}
-FIX_COMMITS = ["240c9e2"]
+FIX_COMMITS = ["240c9e2", "ba1006d"]
